@@ -9,6 +9,8 @@ WT=$(mktemp -d /tmp/mwt.XXXXXX); VC=$(mktemp -d /tmp/mvf.XXXXXX)
 trap 'git -C /repo worktree remove --force "$WT" >/dev/null 2>&1; rm -rf "$WT" "$VC"' EXIT
 git -C /repo worktree add --detach "$WT" HEAD >/dev/null 2>&1 || { echo "worktree failed"; exit 3; }
 git -C "$WT" apply "$P" || { echo "patch does not apply"; exit 3; }
+# files the change does not touch keep the time stamps of /repo's copies: only what depends on the changed files is rebuilt
+( cd "$WT" && git ls-files src include | while read -r f; do [ -f "/repo/$f" ] && cmp -s "$f" "/repo/$f" && touch -r "/repo/$f" "$f"; done )
 rsync -a --exclude .git --exclude build/logs --exclude build/scratch --exclude 'build/simcheck.*' --exclude seeded --exclude replays /verif/ "$VC/"
 mkdir -p "$VC/replays" "$VC/build/logs"
 TIER=${MUT_TIER:-quick}
